@@ -12,7 +12,7 @@ import (
 func init() {
 	register(&propInfo{
 		ID:          "C10",
-		Explanation: "Static index-safety and key-hygiene analysis of every place where bytes decoded from a peer steer an operation that can panic: (R10.1) every index into a slice filled by a JSON decode is dominated by a length test that makes it in-range; (R10.2) every interface-typed key used on the per-connection tables originates from the id normaliser (or from locally generated requests); (R10.3) the frame executor dispatches only on the nil branches of both the frame-decode error and the id-normalisation error; (R10.4) results of comma-ok table lookups are used only on the found branch; (R10.5) the HTTP body is read through a limit strictly above the configured maximum, rejected exactly when it exceeds that maximum, and the rejection reaches neither a decoder nor the dispatcher; (R10.6) type assertions on decoded interface values use the comma-ok form. R10.1 also tracks tails s[k:] of decoded slices (in place or returned by a helper) with the known length minus k. (R10.9) a completion is delivered at most once per in-flight entry. (R10.10) no possibly-nil handler pointer is wrapped into the dispatcher interface. (R10.11) a pooled request buffer is Reset on every way from Get to Put. (R10.12) the frame executor never blocks on something only a finishing handler releases.",
+		Explanation: "Static index-safety and key-hygiene analysis of every place where bytes decoded from a peer steer an operation that can panic: (R10.1) every index into a slice filled by a JSON decode is dominated by a length test that makes it in-range; (R10.2) every interface-typed key used on the per-connection tables originates from the id normaliser (or from locally generated requests); (R10.3) the frame executor dispatches only on the nil branches of both the frame-decode error and the id-normalisation error; (R10.4) results of comma-ok table lookups are used only on the found branch; (R10.5) the HTTP body is read through a limit strictly above the configured maximum, rejected exactly when it exceeds that maximum, and the rejection reaches neither a decoder nor the dispatcher; (R10.6) type assertions on decoded interface values use the comma-ok form. R10.1 also tracks tails s[k:] of decoded slices (in place or returned by a helper) with the known length minus k. (R10.9) a completion is delivered at most once per in-flight entry. (R10.10) no possibly-nil handler pointer is wrapped into the dispatcher interface. (R10.11) a pooled request buffer is Reset on every way from Get to Put. (R10.12) the frame executor never blocks on something only a finishing handler releases. (R10.13) every call frame reaches the dispatcher. (R10.14) no table of the connection object that is written to is ever set to nil.",
 		NotDecided:  "Memory exhaustion by huge WebSocket frames (no read limit is configured by the library), panics inside user-supplied codecs, indexes into slices whose length is tied to the index by library invariants rather than by a local test (e.g. bytes.Buffer length), and whether a server keeps answering (liveness).",
 		Assumptions: []string{
 			"a slice is peer-sized when it is a local filled by encoding/json.Unmarshal or (*json.Decoder).Decode",
@@ -26,6 +26,10 @@ func init() {
 func runC10(c *Ctx) {
 	c.rule("R10.12", "no sequence of frames wedges a connection: the frame executor never blocks on something only a finishing handler releases (a peer that parks enough calls would otherwise stop its cancels, responses and further calls from ever being executed)")
 	c.executorNeverWaitsForHandlers("R10.12")
+	c.rule("R10.13", "a peer's frames keep being served: every call frame reaches the dispatcher, except where no handler is configured (no frame is refused because of what earlier frames left behind)")
+	c.everyCallFrameDispatched("R10.13")
+	c.rule("R10.14", "a table of the connection object that is written to is never left nil: every store into such a map field stores a made map (an entry written after a reset to nil — by the handler of a peer's frame — panics with 'assignment to entry in nil map')")
+	c.tablesNeverNil("R10.14")
 	c.rule("R10.1", "every index into a slice decoded from peer bytes is dominated by a length test that makes it in range")
 	c.rule("R10.2", "every interface-typed key used to index a per-connection table comes from the id normaliser, a constant, or a locally minted request")
 	c.rule("R10.3", "the frame executor reaches the dispatcher only on the nil branches of the frame-decode error and of the id-normalisation error")
@@ -1940,5 +1944,37 @@ func (c *Ctx) pooledBufferReset(rule string) {
 	}
 	if n == 0 {
 		c.ok(rule, "no pooled buffers", "-", "nothing to check")
+	}
+}
+
+// tablesNeverNil: R10.14. The per-connection tables are reset on a connection loss and written again by the
+// handlers of the frames the peer sends on the next connection. A reset that stores nil instead of a fresh
+// map (the sibling reset uses make) turns the next registration into "assignment to entry in nil map" on the
+// frame executor: the peer's answer to a subscription kills the process.
+func (c *Ctx) tablesNeverNil(rule string) {
+	p, r := c.P, c.R
+	if r.TConn == nil {
+		c.und(rule, "role:T_conn", "-", "connection type not resolved")
+		return
+	}
+	st := structOf(r.TConn)
+	n := 0
+	for i := 0; st != nil && i < st.NumFields(); i++ {
+		f := st.Field(i)
+		if _, ok := f.Type().Underlying().(*types.Map); !ok {
+			continue
+		}
+		written := len(usesOfKind(p.uses(f), "mapupdate")) > 0
+		if !written {
+			continue
+		}
+		for _, u := range usesOfKind(p.uses(f), "store") {
+			n++
+			construct := fmt.Sprintf("%s: store into table %s", fname(u.Fn), f.Name())
+			c.check(!isNilConst(u.Val), rule, construct, c.ipos(u.At), "a made map", "the table is set to nil although entries are written into it later (a registration after a reconnect): 'assignment to entry in nil map' on the frame executor kills the process — triggered by a frame of the peer")
+		}
+	}
+	if n == 0 {
+		c.und(rule, "stores into connection tables", "-", "none found")
 	}
 }
